@@ -330,9 +330,24 @@ func (c *fileCtx) typeStmt(f family, depth int) string {
 func (c *fileCtx) typedef(name string) {
 	f := c.fam()
 	ts := c.typeStmt(f, 0)
-	// a typedef that names itself is cyclic wherever it stands: keep those rare
-	for i := 0; i < 4 && c.r.Intn(100) < 93 && (strings.HasPrefix(ts, "type "+name+";") || strings.HasPrefix(ts, "type "+name+" ") ||
-		strings.HasPrefix(ts, "type "+c.ownPrefix+":"+name+";") || strings.HasPrefix(ts, "type "+c.ownPrefix+":"+name+" ")); i++ {
+	// a typedef that names itself is cyclic wherever it stands, and free references among three
+	// names close cycles most of the time: usually refer only to alphabetically smaller names
+	refName := func(ts string) string {
+		ref := strings.TrimPrefix(ts, "type ")
+		ref = strings.TrimRight(strings.SplitN(ref, " ", 2)[0], ";")
+		if i := strings.Index(ref, ":"); i >= 0 {
+			if ref[:i] != c.ownPrefix {
+				return ""
+			}
+			ref = ref[i+1:]
+		}
+		return ref
+	}
+	for i := 0; i < 6 && c.r.Intn(100) < 90; i++ {
+		ref := refName(ts)
+		if len(ref) != 1 || ref < name {
+			break
+		}
 		ts = c.typeStmt(f, 0)
 	}
 	fmt.Fprintf(c.sb, "typedef %s { %s", name, ts)
@@ -403,7 +418,7 @@ func (c *fileCtx) leaf() {
 
 // body writes typedefs, leaves and nested scopes below a statement of the given kind.
 func (c *fileCtx) body(kind string, depth int) {
-	if kind != "choice" && kind != "case" && kind != "augment" && kind != "rpc" && kind != "action" {
+	if kind != "choice" && kind != "case" && kind != "augment" && kind != "rpc" && kind != "action" && kind != "module" {
 		c.typedefs(false, nil)
 	}
 	if kind == "rpc" || kind == "action" {
@@ -686,5 +701,155 @@ func oddCase(r *rand.Rand, id string) tcase {
 	if withSub {
 		files = append(files, srcFile{"m0s0.yang", fmt.Sprintf("submodule m0s0 { belongs-to m0 { prefix p; }\n typedef %s { %s }\n leaf z1 { %s }\n}\n", typedefNames[r.Intn(3)], pick(), pick())})
 	}
+	return tcase{ID: id, Files: files}
+}
+
+// ---------------------------------------------------------------------------------------------
+// derivation chains of depth 5 with every attribute
+//
+// d1 (module mb) <- d2 (submodule of mb) <- d3 (module ma, through the import of mb) <- d4
+// (container scope in ma) <- d5 (list scope below it); every level may add what its family
+// allows (a further pattern, a narrower range or length, units, a default, a path, ...); several
+// leaves use d5, d4 and d3, each with a restriction of its own (use sites of one typedef must not
+// see each other's additions).
+func chainCase(r *rand.Rand, id string) tcase {
+	f := family(r.Intn(int(nFamilies)))
+	p := func(prob int) bool { return r.Intn(100) < prob }
+	narrowInt := []string{"0..100", "1..90", "5..80", "10..70", "20..60", "30..50", "35..45"}
+	narrowLen := []string{"0..200", "1..100", "2..90", "3..80", "4..70", "5..60", "6..50"}
+	narrowDec := []string{"0..100", "0.5..90", "1.25..80", "2..70.5", "10..60", "20..50", "30.75..40"}
+	root := map[family]string{
+		famString: "string", famInt: []string{"int8", "int32", "uint16", "uint64"}[r.Intn(4)], famDec: "decimal64", famEnum: "enumeration",
+		famBits: "bits", famLeafref: "leafref", famIdref: "identityref", famInstID: "instance-identifier", famUnion: "union",
+		famBool: "boolean", famBinary: "binary",
+	}[f]
+	step := 0 // how far the narrowing has come
+	body := func(level int, site bool) string {
+		var b strings.Builder
+		switch f {
+		case famString:
+			if p(60) {
+				fmt.Fprintf(&b, " pattern \"p%d%s\";", level, map[bool]string{true: "s", false: ""}[site])
+			}
+			if p(15) {
+				fmt.Fprintf(&b, " pattern \"p1\";") // restating an inherited pattern adds nothing
+			}
+			if p(40) && step < len(narrowLen) {
+				fmt.Fprintf(&b, " length \"%s\";", narrowLen[step])
+				if !site {
+					step++
+				}
+			}
+		case famBinary:
+			if p(50) && step < len(narrowLen) {
+				fmt.Fprintf(&b, " length \"%s\";", narrowLen[step])
+				if !site {
+					step++
+				}
+			}
+		case famInt:
+			if p(55) && step < len(narrowInt) {
+				fmt.Fprintf(&b, " range \"%s\";", narrowInt[step])
+				if !site {
+					step++
+				}
+			}
+			if p(4) {
+				b.Reset()
+				fmt.Fprintf(&b, " range \"0..120\";") // wider than what is inherited: an error
+			}
+		case famDec:
+			if level == 1 {
+				fmt.Fprintf(&b, " fraction-digits %d;", 1+r.Intn(3))
+			}
+			if p(50) && step < len(narrowDec) {
+				fmt.Fprintf(&b, " range \"%s\";", narrowDec[step])
+				if !site {
+					step++
+				}
+			}
+		case famEnum:
+			if level == 1 {
+				b.WriteString(" enum e0; enum e1 { value 5; } enum e2; enum e3 { value -2; }")
+			}
+		case famBits:
+			if level == 1 {
+				b.WriteString(" bit b0; bit b1 { position 7; } bit b2;")
+			}
+		case famLeafref:
+			if level == 1 || p(25) {
+				fmt.Fprintf(&b, " path \"../l%d\";", level)
+			}
+			if p(25) {
+				fmt.Fprintf(&b, " require-instance %s;", []string{"true", "false"}[r.Intn(2)])
+			}
+		case famIdref:
+			if level == 1 {
+				b.WriteString(" base id0;")
+			}
+		case famInstID:
+			if p(30) {
+				fmt.Fprintf(&b, " require-instance %s;", []string{"true", "false"}[r.Intn(2)])
+			}
+		case famUnion:
+			if level == 1 {
+				b.WriteString(" type string { pattern \"u\"; } type int8 { range \"1..5\"; } type enumeration { enum x; }")
+				if p(50) {
+					b.WriteString(" type m1t;")
+				}
+			}
+		}
+		return b.String()
+	}
+	ts := func(ref string, level int, site bool) string {
+		bd := body(level, site)
+		if bd == "" {
+			return "type " + ref + ";"
+		}
+		return "type " + ref + " {" + bd + " }"
+	}
+	extras := func(level int) string {
+		var b strings.Builder
+		if p(35) {
+			fmt.Fprintf(&b, " units \"u%d\";", level)
+		}
+		if p(35) {
+			fmt.Fprintf(&b, " default \"%s\";", defaultsOf[f][r.Intn(len(defaultsOf[f]))])
+		}
+		return b.String()
+	}
+	td := func(name, ref string, level int) string {
+		return fmt.Sprintf("typedef %s { %s%s }\n", name, ts(ref, level, false), extras(level))
+	}
+	var mb, mbs, ma strings.Builder
+	mb.WriteString("module mb { namespace \"urn:mb\"; prefix pb; include mbs;\nidentity id0;\ntypedef m1t { type boolean; }\n")
+	mb.WriteString(td("d1", root, 1))
+	mb.WriteString("}\n")
+	mbs.WriteString("submodule mbs { belongs-to mb { prefix pb; }\n")
+	mbs.WriteString(td("d2", []string{"d1", "pb:d1"}[r.Intn(2)], 2))
+	mbs.WriteString("leaf s1 { type d2; }\n}\n")
+	ma.WriteString("module ma { namespace \"urn:ma\"; prefix pa; import mb { prefix x; }\n")
+	ma.WriteString(td("d3", "x:d2", 3))
+	ma.WriteString("leaf a1 { " + ts("d3", 6, true) + " }\n")
+	ma.WriteString("leaf a2 { " + ts("pa:d3", 6, true) + " }\n")
+	ma.WriteString("container c1 {\n")
+	ma.WriteString(td("d4", []string{"d3", "pa:d3"}[r.Intn(2)], 4))
+	ma.WriteString("leaf b1 { " + ts("d4", 6, true) + " }\n")
+	ma.WriteString("leaf-list b2 { " + ts("d4", 6, true) + " }\n")
+	ma.WriteString("list l1 {\n")
+	ma.WriteString(td("d5", "d4", 5))
+	for i := 1; i <= 3; i++ {
+		ma.WriteString(fmt.Sprintf("leaf c%d { %s", i, ts("d5", 6, true)))
+		if p(20) {
+			ma.WriteString(" mandatory true;")
+		}
+		ma.WriteString(" }\n")
+	}
+	ma.WriteString("leaf c4 { type d5; }\n")
+	ma.WriteString("grouping g1 { leaf g1l { " + ts("d5", 6, true) + " } }\n")
+	ma.WriteString("container u1 { uses g1; }\ncontainer u2 { uses g1; }\n")
+	ma.WriteString("}\n}\n}\n")
+	files := []srcFile{{"ma.yang", ma.String()}, {"mb.yang", mb.String()}, {"mbs.yang", mbs.String()}}
+	r.Shuffle(len(files), func(a, b int) { files[a], files[b] = files[b], files[a] })
 	return tcase{ID: id, Files: files}
 }
